@@ -646,8 +646,14 @@ class ContDomain(Domain):
         init, cond, inc, body = loop.n('init'), loop.n('c'), loop.n('inc'), loop.n('body')
         if cond is None or inc is None or body is None: return None
         if init is not None:
-            if init.k != 'decl' or len(init.vars) != 1: return None
+            if init.k != 'decl' or not init.vars: return None
             iv = init.vars[0]['decl']
+            if len(init.vars) > 1:
+                # `for (size_t i = a, last = b; i < last; ++i)`: the counter is the variable the increment steps; the others are ordinary locals
+                tgt = inc.n('sub') if inc is not None and inc.k == 'unop' else (inc.n('lhs') if inc is not None and inc.k == 'binop' else None)
+                cand = [v_['decl'] for v_ in init.vars if tgt is not None and tgt.k == 'ref' and tgt.decl == v_['decl']]
+                if len(cand) != 1: return None
+                iv = cand[0]
         else:
             # for (; first != last; ++first): the counter is an existing local / by-value parameter
             c0 = cond.n('lhs') if cond.k == 'binop' else None
